@@ -10,9 +10,10 @@ vc=/tmp/seedverif-$tag
 git -C /repo worktree add --detach "$wt" HEAD >/dev/null 2>&1 || { echo "cannot create worktree"; exit 2; }
 git -C "$wt" apply "$patch" || { echo "patch does not apply to /repo HEAD"; git -C /repo worktree remove --force "$wt"; exit 2; }
 mkdir -p "$vc"
-rsync -a --exclude .build/target --exclude .git --exclude evidence /verif/ "$vc"/
+src=${VERIF_SRC:-/verif}
+rsync -a --exclude .build/target --exclude .git --exclude evidence "$src"/ "$vc"/
 mkdir -p "$vc/evidence" "$vc/.build"
-cp -r /verif/.build/target "$vc/.build/target" 2>/dev/null
+cp -r "$src/.build/target" "$vc/.build/target" 2>/dev/null
 sed -i "s#/repo/#$wt/#g" "$vc/harness/Cargo.toml"
 sed -i "s#^REPO = \"/repo\"#REPO = \"$wt\"#" "$vc/tools/gv.py"
 for p in "$@"; do
